@@ -175,12 +175,43 @@ pub fn gen_nelem(t: &mut Tape, sw: &NSwarm, names: &[Vec<u8>]) -> NElem {
 pub fn gen_nlib(t: &mut Tape) -> (NLib, NSwarm) {
     let sw = NSwarm::draw(t);
     let ns = t.draw(sw.max_structs + 1);
-    let names: Vec<Vec<u8>> = (0..ns).map(|_| gen_bytes_string(t, &sw)).collect();
+    let mut names: Vec<Vec<u8>> = Vec::new();
+    for _ in 0..ns {
+        // one name in 10 repeats an earlier one (two structures of one name are grammar-conformant)
+        if !names.is_empty() && t.chance(1, 10) {
+            let again = t.pick(&names).clone();
+            names.push(again);
+        } else {
+            names.push(gen_bytes_string(t, &sw));
+        }
+    }
     let mut structs = Vec::new();
     for i in 0..ns as usize {
         let d = dates(t);
         let ne = t.draw(sw.max_elems + 1);
-        let elems = (0..ne).map(|_| gen_nelem(t, &sw, &names)).collect();
+        let mut elems: Vec<NElem> = Vec::new();
+        for _ in 0..ne {
+            let e = gen_nelem(t, &sw, &names);
+            // one element in 10 is followed by an identical twin
+            let twin = t.chance(1, 10);
+            if twin {
+                elems.push(e.clone());
+            }
+            elems.push(e);
+        }
+        // one struct in 60: an element with many small properties (hundreds of bytes to kilobytes in total), and
+        // hundreds of elements (repeats of the drawn ones)
+        if !elems.is_empty() && t.chance(1, 60) {
+            let np = *t.pick(&[29usize, 64, 127, 128, 255, 256, 300]);
+            elems[0].props = (0..np).map(|j| ((j % 400) as i16, format!("value_number_{:04}", j).into_bytes())).collect();
+            let target = *t.pick(&[0usize, 255, 256, 1000]);
+            let base = elems.clone();
+            let mut k = 1usize;
+            while elems.len() < target {
+                elems.push(base[k % base.len()].clone());
+                k += 1;
+            }
+        }
         structs.push(NStruct { dates: d, name: names[i].clone(), elems });
     }
     let lib = NLib { version: gen_i16(t), dates: dates(t), name: gen_bytes_string(t, &sw), units: (real(t, &sw), real(t, &sw)), structs, extras: vec![] };
